@@ -1,10 +1,214 @@
-// Package c09: harness for property C09 (stub until built).
+// Package c09: DA verdicts and validator fault counts are per item, by distinct validators.
+//
+// The harness runs the real application (x/da keeper with the real staking and slashing
+// keepers) and observes whole DA end blockers: the due items with their stored proofs, the
+// bonded validator set in the keeper's own iteration order, the keeper's own zkp threshold
+// and shard assignment (types.ShardIndicesForValidator), the fault and challenge counters
+// before and after, the resulting statuses, and the Slash/Jail effects of the epoch end.
+// Three streams: (1) states written through the keeper's exported setters on discarded
+// cache contexts (volume, edge cases), (2) the same logical items tallied under several
+// orders / groupings from one state, (3) one long history through the real message handlers
+// with real Groth16 proofs and full FinalizeBlock/Commit blocks.
 package c09
 
-import "fmt"
+import (
+	"fmt"
 
-// Run generates n cases from seed, runs them on the real application and writes
-// cases_*.v and stats.json into outDir.
+	"verifharness/emit"
+)
+
+const rule = "a DA end blocker is non-trivial when it tallied >= 2 items in one block with >= 2 stored proofs and at least one duplicate index in a stored proof or one out-of-range index (stored directly, or submitted and refused by the handler) in its round; distinct by (replication factor, active validators, multiset of item shapes with their proofs)"
+
+func corpus(w *world) []struct {
+	tag   string
+	setup setupSpec
+	items []itemSpec
+} {
+	all := func(n int) []int64 {
+		out := make([]int64, n)
+		for i := range out {
+			out[i] = int64(i)
+		}
+		return out
+	}
+	type c = struct {
+		tag   string
+		setup setupSpec
+		items []itemSpec
+	}
+	base := setupSpec{RF: "5", SFT: "0.5", Fraction: "0.001", FC: map[int]uint64{}}
+	var out []c
+	// (a) duplicate index: two validators each listing shard 0 twice reach the count 4 >= 3.33
+	out = append(out, c{"corpus:duplicate-index", base, []itemSpec{{N: 1, Parity: 0, Due: true, Coll: true, Invs: [][]int64{{0}},
+		Proofs: []proofSpec{{Val: 0, Indices: []int64{0, 0}}, {Val: 1, Indices: []int64{0, 0}}}}}})
+	// (b) faults leak: item 0 leaves validator 4 at fault, item 1 is proven by everybody
+	lk := base
+	lk.RF = "3"
+	var everybody []proofSpec
+	for i := range w.vals {
+		everybody = append(everybody, proofSpec{Val: i, Indices: all(2)})
+	}
+	// (written third = oldest timestamp = tallied first)
+	out = append(out, c{"corpus:faults-leak", lk, []itemSpec{
+		{N: 2, Parity: 0, Due: true, Coll: true, Invs: [][]int64{{1}}, Proofs: everybody},
+		{N: 2, Parity: 0, Due: true, Coll: true, Invs: [][]int64{{1}}, Proofs: everybody},
+		{N: 2, Parity: 0, Due: true, Coll: true, Invs: [][]int64{{0}}, Proofs: everybody[:len(everybody)-1]}}})
+	// (c) rejected item without any invalidity record (challenge threshold 0): reward division by zero
+	out = append(out, c{"corpus:zero-challengers", base, []itemSpec{{N: 3, Parity: 0, Due: true, Coll: true}}})
+	// (d) a counter of an operator that is no longer a validator survives the epoch end
+	st := base
+	st.Epoch = true
+	st.FC = map[int]uint64{91: 3, 1: 2}
+	st.CC = 3
+	out = append(out, c{"corpus:removed-validator-counter", st, nil})
+	// (e) epoch end directly after a tally in the same block
+	ep := base
+	ep.Epoch = true
+	ep.RF = "3"
+	ep.SFT = "0.5"
+	ep.CC = 3
+	ep.FC = map[int]uint64{len(w.vals): 2, 1: 2}
+	out = append(out, c{"corpus:tally-then-epoch", ep, []itemSpec{
+		{N: 2, Parity: 0, Due: true, Coll: true, Invs: [][]int64{{0}}, Proofs: everybody[:len(everybody)-1]}}})
+	return out
+}
+
+// Run generates n cases from seed and writes cases_*.v and stats.json into outDir.
 func Run(seed int64, n int, outDir string) error {
-	return fmt.Errorf("c09: harness not built yet")
+	r := emit.NewRand(seed)
+	st := emit.NewStats("C09", seed, rule)
+	cf := &emit.CasesFile{Import: "Da.C09Check", Runner: "run", Type: "c09_case"}
+
+	sizes := []int{4, 1, 2, 3, 6, 8}
+	var worlds []*world
+	for _, nv := range sizes {
+		w := newWorld(nv)
+		defer w.h.Close()
+		worlds = append(worlds, w)
+	}
+
+	addBlock := func(b blockResult, tag string, refusedOOR bool) {
+		b.Info["tag"] = tag
+		cf.Add(b.Term)
+		st.Info(b.Info)
+		st.Evaluations++
+		st.Count("block:" + tag)
+		ni, np := len(b.Pre.Items), 0
+		dup, oor := false, refusedOOR
+		for _, it := range b.Pre.Items {
+			np += len(it.Proofs)
+			for _, pr := range it.Proofs {
+				seen := map[int64]bool{}
+				for _, x := range pr.Indices {
+					if seen[x] {
+						dup = true
+					}
+					seen[x] = true
+					if x < 0 || x >= int64(it.N) {
+						oor = true
+					}
+				}
+			}
+		}
+		st.Count(fmt.Sprintf("items-tallied:%d", min(ni, 5)))
+		if b.Pre.Epoch {
+			st.Count("epoch-end")
+		}
+		if b.Obs.Panic {
+			st.Count("panic")
+		}
+		for _, s := range b.Obs.Status {
+			switch s {
+			case stVerified:
+				st.Count("verdict:verified")
+			case stRejected:
+				st.Count("verdict:rejected")
+			default:
+				st.Count("verdict:none")
+			}
+		}
+		st.Hist["slashed"] += len(b.Obs.SlashEv)
+		faults := 0
+		for _, id := range b.Pre.IDs {
+			if !b.Pre.Epoch && b.Obs.FC[id] > b.Pre.FC[id] {
+				faults += int(b.Obs.FC[id] - b.Pre.FC[id])
+			}
+		}
+		st.Hist["fault-increments"] += faults
+		if dup {
+			st.Count("with-duplicate-index")
+		}
+		if oor {
+			st.Count("with-out-of-range-index")
+		}
+		if ni >= 2 && np >= 2 && (dup || oor) {
+			st.Nontriv(shapeKey(b.Pre))
+			st.Sample(b.Info)
+		}
+	}
+
+	// 1. corpus (regression witnesses of the repaired defects) on the 4-validator world
+	for _, c := range corpus(worlds[0]) {
+		res := worlds[0].directCase(c.setup, c.items)
+		addBlock(res, c.tag, false)
+	}
+
+	// 2. the real message path: one long history on a 5-validator world
+	wr := newWorld(5)
+	defer wr.h.Close()
+	rh, err := newRealHistory(wr, r)
+	if err != nil {
+		return err
+	}
+	realBlocks := n / 5
+	for done := 0; done < realBlocks; {
+		blocks, dup, oor, err := rh.round()
+		if err != nil {
+			return fmt.Errorf("real history: %w", err)
+		}
+		_ = dup
+		for _, b := range blocks {
+			addBlock(b, "real", oor)
+			done++
+		}
+		for _, sb := range rh.subs {
+			cf.Add(sb.coq())
+			st.Info(map[string]any{"kind": "submit-validity-proof", "shards": sb.N, "indices": sb.Indices, "accepted": sb.Accepted, "error_class": sb.Err})
+			st.Evaluations++
+			st.Count("submission")
+		}
+		rh.subs = nil
+	}
+	for k, v := range rh.msgHist {
+		st.Hist[k] += v
+	}
+
+	// 3. order / grouping experiments
+	nOrder := n / 30
+	for i := 0; i < nOrder; i++ {
+		w := worlds[r.Intn(len(worlds))]
+		if len(w.vals) == 1 && r.Bool() {
+			w = worlds[0]
+		}
+		o := genOrder(r, w)
+		for _, b := range o.Blocks {
+			addBlock(b, "order", false)
+		}
+		cf.Add(o.Term)
+		st.Info(o.Info)
+		st.Evaluations++
+		st.Count("order-experiment")
+	}
+
+	// 4. direct-write cases
+	for i := 0; i < n/2; i++ {
+		w := worlds[r.Intn(len(worlds))]
+		res, _, _, _, _ := genDirect(r, w)
+		addBlock(res, "direct", false)
+	}
+
+	if _, err := cf.Write(outDir, "cases", 200); err != nil {
+		return err
+	}
+	return st.Write(outDir)
 }
